@@ -32,7 +32,8 @@ ASSUMPTIONS = [
 LETTERS = "trme"
 DIMS = {
     "t": dict(letter="t", name="time", items=[2000, 2001, 2002], dtype="int"),
-    "r": dict(letter="r", name="region", items=["EU", "US"], dtype="str"),
+    # (an item outside ASCII: the files are UTF-8, as pandas writes and reads them by default)
+    "r": dict(letter="r", name="region", items=["EU", "Österreich"], dtype="str"),
     "m": dict(letter="m", name="material", items=["steel", "wood", "glass"], dtype="str"),
     "e": dict(letter="e", name="element", items=[6, 26], dtype="int"),
     "y": dict(letter="y", name="year", items=[1990, 2000, 2010, 2020], dtype="int"),
